@@ -235,6 +235,11 @@ func component(cs Case) templ.Component {
 // errorHandler returns the configured error handler variant. Bodies use lower
 // case letters and punctuation only (disjoint from the document alphabet).
 func errorHandler(name string) func(r *http.Request, err error) http.Handler {
+	return errorHandlerText(name, func(err error) string { return err.Error() })
+}
+
+// errorHandlerText: text(err) is what the variant echoes into its body.
+func errorHandlerText(name string, text func(error) string) func(r *http.Request, err error) http.Handler {
 	if name == "" {
 		return nil
 	}
@@ -247,21 +252,21 @@ func errorHandler(name string) func(r *http.Request, err error) http.Handler {
 			switch name {
 			case "status+body":
 				w.WriteHeader(http.StatusUnprocessableEntity)
-				_, _ = io.WriteString(w, "eh: custom failure page: "+err.Error())
+				_, _ = io.WriteString(w, "eh: custom failure page: "+text(err))
 			case "body":
-				_, _ = io.WriteString(w, "eh: body only: "+err.Error())
+				_, _ = io.WriteString(w, "eh: body only: "+text(err))
 			case "nothing":
 			case "own-ct":
 				w.Header().Set("Content-Type", "application/problem+json")
 				w.WriteHeader(http.StatusServiceUnavailable)
-				_, _ = io.WriteString(w, `{"error":"`+err.Error()+`"}`)
+				_, _ = io.WriteString(w, `{"error":"`+text(err)+`"}`)
 			case "status-only":
 				w.WriteHeader(http.StatusBadGateway)
 			case "header+status+body":
 				w.Header().Set("X-Verif-Err", "yes")
 				w.Header().Set("Cache-Control", "no-store")
 				w.WriteHeader(http.StatusInternalServerError)
-				_, _ = io.WriteString(w, "eh: with headers: "+err.Error())
+				_, _ = io.WriteString(w, "eh: with headers: "+text(err))
 			}
 		})
 	}
@@ -475,8 +480,21 @@ func judge(cs Case, got, want observation, sl *slot) verdict {
 	return v
 }
 
+// genSess is the built corpus driver (generated components), nil when absent.
+var genSess *genSession
+
 // runCase executes one case against the real handler and the reference.
 func runCase(cs Case, srv *servers) verdict {
+	if isGen(cs) {
+		if genSess == nil {
+			return verdict{}
+		}
+		vs, msg := genSess.run([]Case{cs})
+		if msg != "" {
+			core.Infra("corpus driver: %s", msg)
+		}
+		return vs[cs.ID]
+	}
 	sl := &slot{}
 	var got, want observation
 	if cs.Via == "server" && srv != nil {
@@ -518,7 +536,15 @@ func reduce(cs Case, cat string, srv *servers) Case {
 		}
 	}
 	try(func(t *Case) { t.Via = "recorder" })
-	try(func(t *Case) { t.Comp = "plain" })
+	try(func(t *Case) {
+		t.Comp = "plain"
+		if t.Outcome == "nested" { // outcome of generated templates only
+			t.Outcome = "err"
+		}
+	})
+	if cs.Outcome == "nested" {
+		try(func(t *Case) { t.Outcome = "err" })
+	}
 	try(func(t *Case) { t.Status = 0 })
 	try(func(t *Case) { t.CT = "" })
 	try(func(t *Case) { t.EH = "" })
@@ -573,7 +599,7 @@ func sizesFor(rnd interface{ Intn(int) int }, profile string, k int) []int {
 // Run is the C11 check.
 func Run(c *core.Ctx) {
 	c.Level = "fault_enumeration"
-	c.Rule = "case = (handler configuration: status{unset,200,201,404,500} x content type{default,custom} x error handler{unset + 6 variants} x streaming{off,on}) x component{plain, nested child, generated-code shape with runtime buffer} x outcome{ok, error, error after the request context was cancelled} x failure point k=0..8 chunks (every k for every configuration/component/outcome) x chunk-size profile (1 B .. 200 KB); non-trivial = buffered configuration, rendering fails after >= 1 chunk was written; distinct by construction (each enumerated tuple once per size draw)"
+	c.Rule = "case = (handler configuration: status{unset,200,201,404,500} x content type{default,custom} x error handler{unset + 6 variants} x streaming{off,on}) x component{plain, nested child, generated-code shape with runtime buffer; plus two really generated templates (templ generate + go build) in a driver process} x outcome{ok, error, error after the request context was cancelled; generated: also error in a nested template} x failure point k=0..8 chunks (every k for every configuration/component/outcome) x chunk-size profile (1 B .. 200 KB); non-trivial = buffered configuration, rendering fails after >= 1 chunk (generated templates: after any output, static text precedes every failure point) was written; distinct by construction (each enumerated tuple once per size draw)"
 	c.Assume("net/http (ResponseRecorder, Server, Client) reports status, headers and body faithfully")
 	c.Assume("the reference for an error handler's response is that same handler run alone on a fresh ResponseWriter with the configured Content-Type preset")
 	srv := newServers()
@@ -582,6 +608,13 @@ func Run(c *core.Ctx) {
 	if c.ReplayFile != "" {
 		var cs Case
 		c.LoadReplay(&cs)
+		if isGen(cs) {
+			var msg string
+			if genSess, msg = buildGen(c); genSess == nil {
+				core.Infra("%s", msg)
+			}
+			defer genSess.close()
+		}
 		c.Eval(1)
 		c.NontrivialN(2)
 		if v := runCase(cs, srv); v.Category != "" {
@@ -697,6 +730,75 @@ func Run(c *core.Ctx) {
 	}
 	close(work)
 	wg.Wait()
+
+	// ---- real generated components (templ generate + go build), one driver process
+	var nGen, nGenNontrivial, nGenStreamPartial int
+	if sess, msg := buildGen(c); sess == nil {
+		c.Inconclusive("generated-component part not run: " + msg)
+	} else {
+		genSess = sess
+		defer sess.close()
+		rnd := c.Rand("gen")
+		var gcases []Case
+		gdraws := c.Pick(1, 3)
+		n := 0
+		for ci, cf := range configs {
+			for _, out := range []string{"ok", "err", "cancel", "nested"} {
+				for k := 0; k <= maxK; k++ {
+					for gi, comp := range []string{"gen-chunks", "gen-wrapped"} {
+						if c.Quick() && (ci+k)%2 != gi {
+							continue
+						}
+						for d := 0; d < gdraws; d++ {
+							n++
+							prof := "small"
+							switch {
+							case n%60 == 0:
+								prof = "big"
+							case n%6 == 0:
+								prof = "page"
+							case n%5 == 0:
+								prof = "tiny"
+							}
+							cs := Case{Status: cf.status, CT: cf.ct, EH: cf.eh, Stream: cf.stream, Comp: comp, Outcome: out,
+								Sizes: sizesFor(rnd, prof, k), Via: "recorder", ID: int(id.Add(1))}
+							if n%9 == 0 {
+								cs.Via = "server"
+							}
+							gcases = append(gcases, cs)
+						}
+					}
+				}
+			}
+		}
+		vs, msg := sess.run(gcases)
+		if msg != "" {
+			c.Inconclusive("generated-component part: " + msg)
+		}
+		for _, cs := range gcases {
+			v, ok := vs[cs.ID]
+			if !ok {
+				continue
+			}
+			nGen++
+			if !cs.Stream && cs.Outcome != "ok" {
+				nGenNontrivial++ // static template text precedes every failure point
+			}
+			if cs.Stream && cs.Outcome != "ok" && v.Partial {
+				nGenStreamPartial++
+			}
+			if v.Category != "" {
+				vios = append(vios, vio{cs, v})
+			}
+		}
+		if len(gcases) > 0 {
+			c.Sample(map[string]any{"generated_component_case": gcases[len(gcases)/2], "template": "t.templ: Chunks/Wrapped, see checks/c11/gen.go"})
+		}
+	}
+	c.Eval(nGen)
+	c.NontrivialN(nGenNontrivial)
+	c.Set("generated_component_cases", nGen)
+	c.Set("generated_component_streaming_failures_with_partial_output_seen", nGenStreamPartial)
 
 	// reduce and report (deterministic order)
 	sort.Slice(vios, func(i, j int) bool { return vios[i].cs.ID < vios[j].cs.ID })
